@@ -9,6 +9,7 @@
 \* the calls of the history).
 \*   {"e":"New","o":id,"k":"full"|"auto","ns":states}
 \*   {"e":"Mut","o":id,"what":"setP"|"param","r":"ok"|"raise:.."}
+\*   {"e":"CopyTo","o":src,"o2":dst,"how":"ctor"|"assign"}   dst becomes a copy of src (twin of dst rebuilt from src's parameters)
 \*   {"e":"Get","o":id,"which":"pij"|"eq","same":b}      getter of the object = getter of the twin
 \*   {"e":"Sample","o":id,"n":len,"seed":s,"out":[..],"lo":[..],"hi":[..],"wpos":[..]}
 EXTENDS HmmSample, TraceLib
@@ -30,6 +31,11 @@ TMut == /\ IsEvent("Mut") /\ Ev.o \in DOMAIN kind
         /\ Mutate(Ev.o, cfg[Ev.o] + 1)
         /\ UNCHANGED ns /\ gsame' = TRUE
 
+TCopyTo == /\ IsEvent("CopyTo") /\ Ev.o \in DOMAIN kind
+           /\ (Ev.how = "assign") = (Ev.o2 \in DOMAIN kind)
+           /\ CopyTo(Ev.o, Ev.o2)
+           /\ ns' = Put(ns, Ev.o2, ns[Ev.o]) /\ gsame' = TRUE
+
 TGet == /\ IsEvent("Get") /\ Ev.o \in DOMAIN kind
         /\ gsame' = Ev.same
         /\ UNCHANGED <<hvars, ns>>
@@ -39,7 +45,7 @@ TSample == /\ IsEvent("Sample") /\ Ev.o \in DOMAIN kind
            /\ hist' = [hist EXCEPT ![Ev.o] = @ \cup {[seed |-> Ev.seed, path |-> Ev.out]}]
            /\ UNCHANGED <<kind, cfg, pijC, eqC, up, ns>> /\ gsame' = TRUE
 
-TraceNext == TReset \/ TNew \/ TMut \/ TGet \/ TSample
+TraceNext == TReset \/ TNew \/ TMut \/ TCopyTo \/ TGet \/ TSample
 TraceInit == Init /\ ns = <<>> /\ gsame = TRUE /\ l = 1
 TraceSpec == TraceInit /\ [][TraceNext]_<<hvars, ns, gsame, l>>
 
